@@ -182,7 +182,7 @@ struct SIMDVector<int32_t,simd_abi::avx512> {
 
     FASTOR_INLINE int32_t minimum() {
         int32_t *vals = (int32_t*)&value;
-        int32_t quan = 0;
+        int32_t quan = vals[0];
         for (FASTOR_INDEX i=0; i<Size; ++i)
             if (vals[i]<quan)
                 quan = vals[i];
@@ -190,7 +190,7 @@ struct SIMDVector<int32_t,simd_abi::avx512> {
     }
     FASTOR_INLINE int32_t maximum() {
         int32_t *vals = (int32_t*)&value;
-        int32_t quan = 0;
+        int32_t quan = vals[0];
         for (FASTOR_INDEX i=0; i<Size; ++i)
             if (vals[i]>quan)
                 quan = vals[i];
@@ -520,7 +520,7 @@ struct SIMDVector<int32_t,simd_abi::avx> {
 
     FASTOR_INLINE int32_t minimum() {
         int32_t *vals = (int32_t*)&value;
-        int32_t quan = 0;
+        int32_t quan = vals[0];
         for (FASTOR_INDEX i=0; i<Size; ++i)
             if (vals[i]<quan)
                 quan = vals[i];
@@ -528,7 +528,7 @@ struct SIMDVector<int32_t,simd_abi::avx> {
     }
     FASTOR_INLINE int32_t maximum() {
         int32_t *vals = (int32_t*)&value;
-        int32_t quan = 0;
+        int32_t quan = vals[0];
         for (FASTOR_INDEX i=0; i<Size; ++i)
             if (vals[i]>quan)
                 quan = vals[i];
@@ -837,7 +837,7 @@ struct SIMDVector<int32_t,simd_abi::sse> {
 
     FASTOR_INLINE int32_t minimum() {
         int32_t *vals = (int32_t*)&value;
-        int32_t quan = 0;
+        int32_t quan = vals[0];
         for (FASTOR_INDEX i=0; i<Size; ++i)
             if (vals[i]<quan)
                 quan = vals[i];
@@ -845,7 +845,7 @@ struct SIMDVector<int32_t,simd_abi::sse> {
     }
     FASTOR_INLINE int32_t maximum() {
         int32_t *vals = (int32_t*)&value;
-        int32_t quan = 0;
+        int32_t quan = vals[0];
         for (FASTOR_INDEX i=0; i<Size; ++i)
             if (vals[i]>quan)
                 quan = vals[i];
